@@ -373,6 +373,104 @@ func c20LogConfig(c *Ctx, ix *PkgIndex, m otlpMod) {
 		getenvName = "getEnv"
 	}
 	c20SettingPrecedence(c, ix, sp, getenvName)
+	// every walk over a list of environment variable names that converts the value: a value that does not convert is reported
+	// and the NEXT name is consulted — "the highest-precedence source that provides it", and an unparsable value provides nothing.
+	// (Loops that take the first set variable without converting inside the loop, like the TLS files, have no error arm to judge.)
+	{
+		var bad []string
+		nLoops := 0
+		for _, f := range ix.All {
+			if f.Body() == nil {
+				continue
+			}
+			var loops []*ast.RangeStmt
+			inspectNoLit(f.Body(), func(n ast.Node) bool {
+				if r, ok := n.(*ast.RangeStmt); ok && r.Value != nil {
+					loops = append(loops, r)
+				}
+				return true
+			})
+			for _, r := range loops {
+				kv := objOf(info, r.Value)
+				if kv == nil {
+					continue
+				}
+				// v := os.Getenv(key)
+				envVals := map[types.Object]bool{}
+				inspectNoLit(r.Body, func(n ast.Node) bool {
+					if as, ok := n.(*ast.AssignStmt); ok && len(as.Lhs) == len(as.Rhs) {
+						for i, rhs := range as.Rhs {
+							if call, isC := unparen(rhs).(*ast.CallExpr); isC && isCallTo(info, call, "os.Getenv") && len(call.Args) == 1 && objOf(info, call.Args[0]) == kv {
+								if o := objOf(info, as.Lhs[i]); o != nil {
+									envVals[o] = true
+								}
+							}
+						}
+					}
+					return true
+				})
+				if len(envVals) == 0 {
+					continue
+				}
+				// x, err := conv(v)
+				errVars := map[types.Object]bool{}
+				inspectNoLit(r.Body, func(n ast.Node) bool {
+					as, ok := n.(*ast.AssignStmt)
+					if !ok || len(as.Rhs) != 1 || len(as.Lhs) < 1 {
+						return true
+					}
+					call, isC := unparen(as.Rhs[0]).(*ast.CallExpr)
+					if !isC {
+						return true
+					}
+					takes := false
+					for _, a := range call.Args {
+						if envVals[objOf(info, a)] {
+							takes = true
+						}
+					}
+					last := as.Lhs[len(as.Lhs)-1]
+					if takes && isErrVar(info, last) {
+						if o := objOf(info, last); o != nil {
+							errVars[o] = true
+						}
+					}
+					return true
+				})
+				if len(errVars) == 0 {
+					continue
+				}
+				nLoops++
+				g := ix.FG(f)
+				isHead := func(y *GNode) bool {
+					return y.N == nil && y.Blk != nil && y.Blk.Kind.String() == "RangeLoop"
+				}
+				for _, x := range g.Nodes {
+					if x.N == nil || !containsNoLitOrIn(r.Body, x.N) {
+						continue
+					}
+					for _, e := range x.Succs {
+						isErrArm := edgeImplies(e, func(cnd ast.Expr, pol int) bool {
+							nn, ok := nilCmp(info, cnd, pol, func(y ast.Expr) bool { return errVars[objOf(info, y)] })
+							return ok && nn
+						})
+						if !isErrArm {
+							continue
+						}
+						seen, par := g.ReachFromEdge(e, isHead)
+						for y := range seen {
+							if y == g.Exit || (y.N == nil && y.Blk != nil && y.Blk.Kind.String() == "RangeDone") {
+								bad = append(bad, f.Name+" ("+g.pathLines(par, y)+")")
+							}
+						}
+					}
+				}
+			}
+		}
+		sort.Strings(bad)
+		c.Check(len(bad) == 0, "R1", sp+"|environment walks|a value that does not convert is skipped, the next variable is consulted", at(ix.M, ix.Pkg.Syntax[0].Pos()), itoa(nLoops)+" converting walk(s)",
+			"an unparsable value of the signal-specific variable ends the look-up instead of falling through to the generic variable: "+joinStr(bad)+" — the setting silently becomes the default although the generic variable provides it")
+	}
 	// newConfig: options applied before every Resolve; in each Resolve the fallback is last and getenv precedes it
 	if fn := c.Fn(ix, "R2", "newConfig"); fn != nil {
 		g := ix.FG(fn)
